@@ -103,3 +103,8 @@ pub fn narrow_ok(x: u64) -> u8 {
 pub fn make_all(path: &str) -> std::io::Result<()> {
     std::fs::create_dir_all(path)
 }
+
+/// C05-L7: an "encoder" that repairs the value it writes.
+pub fn clamping_encode(x: u32, hi: u32) -> [u8; 4] {
+    x.min(hi).to_be_bytes()
+}
